@@ -128,6 +128,7 @@ def main(pid, tier, replay_path=None):
 
     # 0. translator part: constants the model depends on, regenerated from the source
     gen_err = gen()
+    common.info("%s [%.1fs] translator" % (pid, t.s()))
     # 1. builds
     model, mlog = router_build.build_model()
     if not model:
@@ -135,11 +136,13 @@ def main(pid, tier, replay_path=None):
         print("internal error: router model does not build", file=sys.stderr)
         return 3
     binp, hlog = router_build.build_harness()
+    common.info("%s [%.1fs] model runner and harness built" % (pid, t.s()))
     # 2. proof obligations
     pr = common.coq_props(pid, extra_files=["Router/GenConform.v"])
     obligations, discharged = len(pr["obligations"]), len(pr["discharged"])
     for name, text in sorted(pr["assumptions"].items()):
         trusted.append("Print Assumptions %s: %s" % (name, text))
+    common.info("%s [%.1fs] proof obligations: %d/%d" % (pid, t.s(), len(pr["discharged"]), len(pr["obligations"])))
     hyg = common.hygiene_scan()
     cov = dict(obligations=obligations, discharged=discharged,
                checker_cmd="make -f Makefile.coq Props/%s.vo && coqc -Q coq Nexus coq/Props/%s.v (full .vo build)" % (pid, pid),
